@@ -13,7 +13,9 @@ from pycparser import c_ast, c_parser
 from .poly import KsymError
 
 FAKE = Path(__file__).parent / "fake_include"
-UFCX_DIR = "/repo/ffcx/codegeneration"
+import os
+
+UFCX_DIR = os.environ.get("VERIF_REPO", "/repo") + "/ffcx/codegeneration"
 
 
 class Kernel:
